@@ -17,7 +17,7 @@ def check(run, views, tier):
         run.cfg = cfg
         F = crates["ipp"]
         n = rr.r_propagate(run, F)
-        run.floor("R-PROPAGATE", n, 46 if rr.async_on(F) else 24, "fallible calls in reader.rs / parser.rs")
+        run.floor("R-PROPAGATE", n, 20 if rr.async_on(F) else 10, "fallible calls in reader.rs / parser.rs")
         rr.r_stop_onlyexit(run, F)
         rr.r_errwrap(run, F)
         rr.r_readexact(run, F)
